@@ -103,13 +103,24 @@ def seeded(ids, verbose):
                 return 2
         bad = 0
         with ThreadPoolExecutor(max_workers=16) as ex:
+            und = 0
             for nid, pid, rc, lines in ex.map(run_one, [(nid, nid[:3], dirs[nid]) for nid in ids]):
-                if rc != 1:
+                # seeded/<id>/undecided.txt: a confirmed breaking change the check cannot analyse yet (exit 2, no verdict) -- listed,
+                # never silent: exit 0 on it is a failure of this run, exit 1 means the note is out of date
+                listed = os.path.exists(os.path.join(root, nid, "undecided.txt"))
+                if listed and rc == 2:
+                    und += 1
+                    if verbose:
+                        print("SEED %s: undecided (listed)  %s" % (nid, lines[0][:160] if lines else ""))
+                elif rc != 1:
                     bad += 1
                     print("SEED %s: %s exit %d  %s" % (nid, pid, rc, (lines[0][:200] if lines else "")))
+                elif listed:
+                    print("SEED %s: caught although listed as undecided (remove undecided.txt)" % nid)
                 elif verbose:
                     print("SEED %s: caught  %s" % (nid, lines[0][:160] if lines else ""))
-        print("seeded: %d property-breaking changes, %d not reported as VIOLATION by their own property's check" % (len(ids), bad))
+        print("seeded: %d property-breaking changes, %d reported as VIOLATION by their own property's check, %d listed as undecided (exit 2), "
+              "%d neither" % (len(ids), len(ids) - bad - und, und, bad))
         return 1 if bad else 0
     finally:
         for d in dirs.values():
